@@ -260,3 +260,60 @@ class ValidateDirectiveImplementation(Contract):
 
 
 CONTRACTS.append(ValidateDirectiveImplementation())
+
+
+# ---- SDL extensions: every `extend ...` definition is registered on the schema with everything it declares, so the extension validators see it
+TR = 'tartiflette/schema/transformer.py::'
+Parsed = z3.Function('ParsedBy', V, V, V, V)          # (helper name, AST sub-node(s), schema): result of the transformer helper (their own subject: C11)
+_HELPERS = ['parse_name', 'parse_fields_definition', 'parse_implements_interfaces', 'parse_enum_values_definition', 'parse_input_fields_definition', 'parse_union_member_types']
+_HELPER_MODELS = {TR + h: (lambda en, st, a, kw, h=h: [(st, Parsed(S(h), en.read(a[0], st), en.read(a[1], st)))]) for h in _HELPERS}
+
+
+class ExtensionParse(Contract):
+    """parse_*_type_extension: ONE extension object of the right class is built from the node -- name, directives and every declared member list,
+    whichever of them are empty -- appended to schema.extensions, and returned"""
+    property_ids = ('C12',)
+    params = None
+    callee_models = _HELPER_MODELS
+    modifies_fields = ('extensions',)
+    inline = (S_ + 'add_extension',)
+
+    def __init__(self, fn, node_param, node_class, ext_class, members):
+        self.key = TR + fn
+        self.params = [node_param, 'schema']
+        self.node_param, self.node_class, self.ext_class, self.members = node_param, node_class, ext_class, members
+
+    def pre(self, A, st):
+        n, s = A[self.node_param], A['schema']
+        members = [Parsed(S(h), attr0(n, a), s) for (_, h, a) in self.members]
+        return [('node', z3.And(exact(n, self.node_class), V.oref(n) >= 0)), ('schema', z3.And(exact(s, 'GraphQLSchema'), V.oref(s) >= 0, V.is_List(attr0(s, 'extensions')))),
+                ('helpers_return_collections', z3.And(*[z3.Or(m == V.None_, V.is_List(m), V.is_Dict(m)) for m in members]))]
+
+    def post(self, A, st0, out):
+        if out.kind == 'raise':
+            return never_raises(out)
+        n, s, r, st = A[self.node_param], A['schema'], out.value, out.st
+        cl = [('an_extension_object_is_returned', z3.And(exact(r, self.ext_class), V.oref(r) < 0)),
+              ('registered_on_the_schema', fld(st, 'extensions', s) == V.List(snoc(V.items(attr0(s, 'extensions')), r))),
+              ('named_after_the_node', fld(st, 'name', r) == Parsed(S('parse_name'), attr0(n, 'name'), s)),
+              ('carries_the_directives', fld(st, 'directives', r) == attr0(n, 'directives'))]
+        for (ext_attr, helper, node_attr) in self.members:
+            p = Parsed(S(helper), attr0(n, node_attr), s)
+            got = fld(st, ext_attr, r)
+            cl.append((f"carries_the_declared_{ext_attr}", z3.If(py_truthy(p), got == p, z3.Or(got == V.List(VL.nil), got == V.Dict(VL.nil)))))
+        return cl
+
+
+CONTRACTS += [
+    ExtensionParse('parse_object_type_extension', 'object_type_extension_node', 'ObjectTypeExtensionNode', 'GraphQLObjectTypeExtension',
+                   [('fields', 'parse_fields_definition', 'fields'), ('interfaces', 'parse_implements_interfaces', 'interfaces')]),
+    ExtensionParse('parse_interface_type_extension', 'interface_type_extension_node', 'InterfaceTypeExtensionNode', 'GraphQLInterfaceTypeExtension',
+                   [('fields', 'parse_fields_definition', 'fields')]),
+    ExtensionParse('parse_enum_type_extension', 'enum_type_extension_node', 'EnumTypeExtensionNode', 'GraphQLEnumTypeExtension',
+                   [('values', 'parse_enum_values_definition', 'values')]),
+    ExtensionParse('parse_input_object_type_extension', 'input_object_type_extension_node', 'InputObjectTypeExtensionNode', 'GraphQLInputObjectTypeExtension',
+                   [('input_fields', 'parse_input_fields_definition', 'fields')]),
+    ExtensionParse('parse_union_type_extension', 'union_type_extension_node', 'UnionTypeExtensionNode', 'GraphQLUnionTypeExtension',
+                   [('types', 'parse_union_member_types', 'types')]),
+    ExtensionParse('parse_scalar_type_extension', 'scalar_type_extension_node', 'ScalarTypeExtensionNode', 'GraphQLScalarTypeExtension', []),
+]
